@@ -16,6 +16,7 @@ type SpecScope struct {
 	oldNames map[string]*Value // values of the same names in the old state (nil: same as names)
 	pkg      *PkgInfo          // package whose scope resolves constants, variables, functions, types
 	predPkg  string            // package path whose spec predicates / ufuncs are in scope (default: pkg)
+	envState *State            // state whose local variables resolve unbound names (default: cur); old() keeps the current locals
 	useEnv   bool              // resolve unbound names among the locals of the function under verification
 	pos      token.Pos         // position (for local lookup)
 	bound    int
@@ -67,13 +68,17 @@ func (vc *VC) evalSpecInt(st *State, e SExpr) string {
 }
 
 func (vc *VC) lookupLocal(sc *SpecScope, name string) *Value {
+	es := sc.cur
+	if sc.envState != nil {
+		es = sc.envState
+	}
 	if h := vc.hidden[name]; h != nil {
-		if v := sc.cur.env[h]; v != nil {
+		if v := es.env[h]; v != nil {
 			return v
 		}
 	}
 	var best types.Object
-	for obj := range sc.cur.env {
+	for obj := range es.env {
 		if obj.Name() != name || obj.Pkg() != vc.pkg.P.Types {
 			continue
 		}
@@ -84,7 +89,7 @@ func (vc *VC) lookupLocal(sc *SpecScope, name string) *Value {
 	if best == nil {
 		return nil
 	}
-	return vc.evalIdentObj(sc.cur, best)
+	return vc.evalIdentObj(es, best)
 }
 
 func (vc *VC) resolveType(sc *SpecScope, name string) types.Type {
@@ -594,7 +599,10 @@ func (vc *VC) specCall(sc *SpecScope, x *SCall) *Value {
 				if o.cur == nil {
 					vc.specFail(sc, "old() without an old state")
 				}
-				o.useEnv = false
+				// names that are neither parameters nor results (locals, closure parameters) keep their current value
+				if sc.useEnv && o.envState == nil {
+					o.envState = sc.cur
+				}
 				return vc.evalSpec(&o, x.Args[0])
 			case "len":
 				a := args()[0]
